@@ -33,9 +33,9 @@ FaultKind(ps, ln) ==
    ELSE ""
 \* the fault of row r ("" if line fl is not a catalogued fault in an otherwise accepted document)
 Fault(r) ==
-   IF r.fl = 0 \/ r.fl > Len(r.lines) \/ r.entry = "tags" THEN ""
+   IF r.fl = 0 \/ r.fl > Len(r.lines) THEN ""
    ELSE IF Run(r.entry, Without(r.lines, r.fl)).res.k # "live" THEN ""
-   ELSE FaultKind(FeedAll(InitOf(r.entry), SubSeq(r.lines, 1, r.fl - 1), 1), r.lines[r.fl])
+   ELSE FaultKind(Prefix(r.entry, SubSeq(r.lines, 1, r.fl - 1)), r.lines[r.fl])
 
 Clauses(r) ==
    LET o == r.obs IN
